@@ -19,12 +19,36 @@ def analyse(abs_path, rel_path):
 
     try:
         lexer = get_lexer_for_filename(rel_path)
-        entry = Scanner._analyze_file(abs_path, rel_path, calculate_checksum(abs_path), lexer)
-        ms = [[m.unit_name, m.start.line, m.start.column, m.end.line, m.end.column, m.value] for m in entry.measurements()]
-        payload = json.dumps([entry.language, entry.loc, ms])
+        if _private_entry_usable(Scanner):
+            entry = Scanner._analyze_file(abs_path, rel_path, calculate_checksum(abs_path), lexer)
+            ms, language, loc = entry.measurements(), entry.language, entry.loc
+        else:  # the private entry point was refactored away: same pipeline through the public functions
+            from codelimit.common.lexer_utils import lex
+            from codelimit.languages import Languages
+            from vf.gen.malformed import decode_like_tool
+
+            language = lexer.name
+            lang = Languages.by_name[language]
+            ms = Scanner.scan_file(lex(lexer, decode_like_tool(open(abs_path, "rb").read()), False), lang)
+            loc = sum(m.value for m in ms)
+        ms = [[m.unit_name, m.start.line, m.start.column, m.end.line, m.end.column, m.value] for m in ms]
+        payload = json.dumps([language, loc, ms])
     except Exception as e:  # noqa: BLE001 - an exception is part of the observable result
         payload = f"EXC:{type(e).__name__}"
     return hashlib.blake2b(payload.encode(), digest_size=8).hexdigest()
+
+
+def _private_entry_usable(Scanner):
+    import inspect
+
+    fn = getattr(Scanner, "_analyze_file", None)
+    if not callable(fn):
+        return False
+    try:
+        inspect.signature(fn).bind("p", "r", "c", None)
+    except TypeError:
+        return False
+    return True
 
 
 def isolated(abs_path, rel_path):
